@@ -14,7 +14,7 @@ import (
 
 func init() {
 	PropertyText["C02"] = [2]string{
-		"Decides: with synchronous WARC writing every path from a successful client.Do to SetStatus(ItemArchived) waits on the feedback channel that was made in the same iteration and stored in that very request's context under the key the warc module reads (R-WARC-WAIT); ItemArchived has that single writer (R-ARCHIVED-ONLY-HERE); ProcessBody returns nil only after draining the response body to EOF (R-BODY-DRAIN); the discard hook handed to both WARC clients is the chain built from the Cloudflare and --warc-discard-status hooks, and the chain discards when any hook does (R-DISCARD-CHAIN). The default discard hooks read only wire-level response fields, because the WARC writer evaluates them on a response re-parsed with a nil request — a convention read out of the linked warc module (R-DISCARD-HOOK-INPUT).",
+		"Decides: with synchronous WARC writing every path from a successful client.Do to SetStatus(ItemArchived) waits on the feedback channel that was made in the same iteration and stored in that very request's context under the key the warc module reads (R-WARC-WAIT); ItemArchived has that single writer (R-ARCHIVED-ONLY-HERE); ProcessBody returns nil only after draining the response body to EOF (R-BODY-DRAIN); the discard hook handed to both WARC clients is the chain built from the Cloudflare and --warc-discard-status hooks, and the chain discards when any hook does (R-DISCARD-CHAIN). The default discard hooks read only wire-level response fields, because the WARC writer evaluates them on a response re-parsed with a nil request — a convention read out of the linked warc module (R-DISCARD-HOOK-INPUT). A response that is retried or refused is drained to EOF, unconditionally and without a cap, before its body is closed, so the record the writer tees is complete (R-RESP-CLOSE).",
 		"Not decided: byte-exactness of payloads, record framing, gzip member independence, revisit logic — all inside the third-party warc module and functions of body bytes.",
 	}
 	register(&core.Rule{ID: "R-WARC-WAIT", Props: []string{"C02", "C04"}, Doc: "fetch closure: on the synchronous path every path from client.Do(req) to SetStatus(ItemArchived) receives from the channel created in that iteration and placed in req's context under key \"feedback\"; the key equals the one the linked warc module looks up; the wait is conditional on nothing but WARCWriteAsync", Run: ruleWarcWait})
